@@ -732,25 +732,38 @@ func ReplayMain(p Prop, path string) int {
 		times, _ = strconv.Atoi(s)
 	}
 	repro := 0
+	findings := LoadFindings(Root())
+	unknown := 0
 	for i := 0; i < times; i++ {
 		res := wk.Replay(doc.Replay)
 		if len(res.Viol) > 0 {
 			repro++
-			if repro == 1 {
-				for _, v := range res.Viol {
-					fmt.Printf("  %s: %s\n", v.Kind, trunc(v.Detail, 2000))
+			for _, v := range res.Viol {
+				f := matchFinding(findings, p.ID(), v.Ident)
+				if f == nil {
+					unknown++
+				}
+				if repro == 1 {
+					tag := ""
+					if f != nil {
+						tag = " [recorded finding " + f.ID + ", ident " + v.Ident + "]"
+					}
+					fmt.Printf("  %s%s: %s\n", v.Kind, tag, trunc(v.Detail, 2000))
 				}
 			}
 		}
 	}
 	fmt.Printf("replay %s: reproduced %d/%d\n", path, repro, times)
+	if repro > 0 && unknown == 0 {
+		fmt.Printf("KNOWN-FINDING: property=%s every failure of this replay is identified as a recorded finding\n", p.ID())
+		return 0
+	}
 	if repro > 0 {
 		fmt.Printf("VIOLATION property=%s replay=%s\n", p.ID(), path)
 		return 1
 	}
 	return 0
 }
-
 
 // maxReplays caps the replay files written per run (VERIF_MAX_REPLAYS raises it for triage).
 func maxReplays() int {
